@@ -84,6 +84,12 @@ func genC05(tier string, seed int64) []Case {
 			add(c05Desc{Kind: "hook", Who: "rt", Phase: "", NExt: nExt, T: 300, Hook: hk})
 		}
 	}
+	// the time runs out while the invocation is between the handler's entry and the re-arming of its barriers
+	// (slow telemetry sink: the invoke-start event takes longer than the timeout)
+	for nExt := 0; nExt <= 1; nExt++ {
+		add(c05Desc{Kind: "slowsink", Who: "rt", Phase: "invokeStart", NExt: nExt, T: 250})
+		add(c05Desc{Kind: "slowsink", Who: "rt", Phase: "initStart", NExt: nExt, T: 250})
+	}
 	// several expiries on ONE instance: every timeout must be answered, torn down and
 	// followed by a fresh environment, not only the first one of a process lifetime
 	add(c05Desc{Kind: "repeat", NExt: 0, T: 150, Rounds: []string{"rt:afterNextNoResponse", "ok", "rt:afterNextNoResponse", "ok"}})
@@ -128,7 +134,11 @@ func runC05(c *Ctx, d c05Desc) {
 	for i := 0; i < d.NExt; i++ {
 		exts = append(exts, fmt.Sprintf("ext%d", i))
 	}
-	w, err := NewWorld(vh.Config{TimeoutMs: d.T, Extensions: exts})
+	cfg := vh.Config{TimeoutMs: d.T, Extensions: exts}
+	if d.Kind == "slowsink" {
+		cfg.SlowEventsMs = map[string]int{map[string]string{"invokeStart": "InvokeStart", "initStart": "InitStart"}[d.Phase]: int(d.T) + 400}
+	}
+	w, err := NewWorld(cfg)
 	if err != nil {
 		c.Inconclusive("harness: " + err.Error())
 		return
@@ -154,6 +164,8 @@ func runC05(c *Ctx, d c05Desc) {
 		o.Handle = func(p *vh.Proc, pt *vh.Party, n int, ev *vh.Resp) *vh.Exit {
 			switch {
 			case d.Kind == "stall" && d.Who == "rt" && d.Phase == "afterNextNoResponse":
+				return Stall(p)
+			case d.Kind == "slowsink":
 				return Stall(p)
 			case d.Kind == "stall" && d.Who == "rt" && d.Phase == "afterResponseNoNext":
 				pt.Respond(ev.ReqID(), respBody(ev.Body), nil)
@@ -229,7 +241,7 @@ func runC05(c *Ctx, d c05Desc) {
 	}
 
 	w.E.Init()
-	if d.Kind != "stall" {
+	if d.Kind != "stall" && !(d.Kind == "slowsink" && d.Phase == "initStart") {
 		// healthy init first, so that the clock of the first invocation starts with a parked runtime
 		dl := time.Now().Add(5 * time.Second)
 		for time.Now().Before(dl) && w.E.RuntimeState() != "Ready" {
@@ -306,7 +318,7 @@ func runC05(c *Ctx, d c05Desc) {
 	evs := w.E.Log.Snapshot()
 
 	switch d.Kind {
-	case "stall":
+	case "stall", "slowsink":
 		// (a) timeout outcome
 		c.Check(outcome == "timeout", "timeout_outcome", "C05/outcome/"+cls+"/"+outcome, fmt.Sprintf("stalled invocation (%s %s) ended %q instead of the timeout outcome", d.Who, d.Phase, outcome), nil)
 		c.Check(took >= T-5*time.Millisecond, "not_before_timeout", "C05/early-timeout/"+cls, fmt.Sprintf("answered after %.0f ms, before the %d ms timeout", float64(took)/1e6, d.T), nil)
